@@ -228,8 +228,7 @@ func (e *verifExporter) fieldKind(t reflect.Type, child node) (kind, arg string)
 		}
 		return "node" + suffix, target
 	case reflect.Int, reflect.Int8, reflect.Int16, reflect.Int32, reflect.Int64, reflect.Uint, reflect.Uint8, reflect.Uint16, reflect.Uint32, reflect.Uint64, reflect.Float32, reflect.Float64:
-		e.unsupported = "numeric field (conversion oracle not recorded)"
-		return "string" + suffix, ""
+		return t.Kind().String() + suffix, ""
 	}
 	e.unsupported = "field type " + t.String()
 	return "string", ""
